@@ -21,6 +21,21 @@ pub struct Injection {
     pub at_call: u64,
     pub sticky: bool,
     pub classes: u32,
+    /// what the failing call, if it is a write, leaves in the file (`vfs::Fault::partial`)
+    pub partial: u8,
+}
+
+pub fn partial_name(p: u8) -> &'static str {
+    match p {
+        1 => "first half of the buffer written before the error",
+        2 => "all but the last byte written before the error",
+        3 => "first 7 bytes (one log-record header) written before the error",
+        _ => "nothing written",
+    }
+}
+
+pub fn partial_from_name(s: Option<&str>) -> u8 {
+    (0..=3u8).find(|p| Some(partial_name(*p)) == s).unwrap_or(0)
 }
 
 #[derive(Clone, Debug, Default)]
@@ -29,6 +44,8 @@ pub struct FaultRun {
     pub fired: u64,
     pub api_errors: u64,
     pub call_sig: Option<String>,
+    /// class of every counted call, in order (numbering run)
+    pub call_classes: Vec<u32>,
     pub violation: Option<(String, String)>,
     pub trace: Vec<String>,
 }
@@ -156,7 +173,10 @@ pub fn run_with_fault(h: &History, inj: Option<&Injection>, classes: u32) -> Fau
     let mut out = FaultRun::default();
     let fs = VerifFs::new();
     match inj {
-        Some(i) => fs.arm_fault(i.at_call, i.sticky, i.classes),
+        Some(i) => {
+            fs.arm_fault(i.at_call, i.sticky, i.classes);
+            fs.set_fault_partial(i.partial);
+        }
         None => fs.count_calls(classes),
     }
     fs.state().trace_calls = true;
@@ -322,6 +342,7 @@ fn finish(fs: &VerifFs, out: &mut FaultRun) {
     let st = fs.state();
     out.calls = st.calls;
     out.fired = st.faults_fired;
+    out.call_classes = st.call_trace.iter().map(|(c, _)| *c).collect();
     if let Some(f) = st.fault.as_ref() {
         if f.at_call != u64::MAX {
             if let Some((c, name)) = st.call_trace.get(f.at_call as usize) {
@@ -364,26 +385,38 @@ pub fn one_injection(h: &History, inj: Option<Injection>, classes: u32) -> (Opti
     (r, out)
 }
 
-pub fn fault_job(h: &History, classes: u32, shm: &Arc<Shm>) {
+pub fn fault_job(h: &History, classes: u32, partial_writes: bool, shm: &Arc<Shm>) {
     // numbering run
     let (r0, o0) = one_injection(h, None, classes);
+    let mut call_classes: Vec<u32> = vec![];
     let n = match (r0, o0) {
-        (Some(r), Some(Outcome::Ok)) if r.violation.is_none() => r.calls,
+        (Some(r), Some(Outcome::Ok)) if r.violation.is_none() => {
+            call_classes = r.call_classes.clone();
+            r.calls
+        }
         (r, o) => {
             push(shm, h, "record.failed", &format!("uninjected run failed: {:?} {:?}", r.and_then(|r| r.violation), o), json!({}));
             return;
         }
     };
     for i in 0..n {
-        for sticky in [false, true] {
+        // a failing write is tried four ways: nothing, half, all but one byte, one header written
+        let is_write = call_classes.get(i as usize).map(|c| c & class::WRITE != 0).unwrap_or(false);
+        let variants: &[(bool, u8)] = if is_write && partial_writes {
+            &[(false, 0), (true, 0), (false, 1), (false, 2), (false, 3), (true, 1)]
+        } else {
+            &[(false, 0), (true, 0)]
+        };
+        for &(sticky, partial) in variants {
             let inj = Injection {
                 at_call: i,
                 sticky,
                 classes,
+                partial,
             };
             shm.add(C_CASES, 1);
             let (r, o) = one_injection(h, Some(inj), classes);
-            let point = |sig: Option<String>| json!({"failing_call_index": i, "of": n, "mode": if sticky { "sticky" } else { "once" }, "call_site": sig});
+            let point = |sig: Option<String>| json!({"failing_call_index": i, "of": n, "mode": if sticky { "sticky" } else { "once" }, "failing_write_leaves": partial_name(partial), "call_site": sig});
             // a run that already reported an oracle violation leaves its database un-closed on
             // purpose; the runtime's complaint about the orphaned background task is not a verdict
             let o = if r.as_ref().map(|r| r.violation.is_some()).unwrap_or(false) { Some(Outcome::Ok) } else { o };
